@@ -22,7 +22,7 @@ META = {
     "technique": "whole-tool metamorphic check over generated configurations: Hypothesis-drawn (module, seed, algorithm, budget, assertion "
                  "mode) run twice in fresh interpreters under different PYTHONHASHSEED; byte comparison of the exported files",
     "design_ref": "DESIGN.md §3 C16",
-    "rule": "case = corpus module x seed x algorithm in {DYNAMOSA, MOSA, MIO, WHOLE_SUITE, RANDOM} x iterations 2..12 x assertion mode x second "
+    "rule": "case = corpus module (incl. 3 extra modules: several documented user exceptions, set-of-str results, class hierarchy) x flat or inside a package with sibling modules x annotations kept|stripped x no_xfail x seed x algorithm in {DYNAMOSA, MOSA, MIO, WHOLE_SUITE, RANDOM} x iterations 2..12 x assertion mode x second "
             "hash seed 1..10000 (first is 0). Non-trivial = both runs wrote a file with >= 2 test functions calling the SUT; distinct by "
             "the whole case. Runs whose log shows a test-execution timeout are inconclusive",
     "assumptions": ["corpus modules are deterministic", "two runs are compared with each other; there is no specification of the output"],
@@ -39,40 +39,49 @@ ALGOS = ["DYNAMOSA", "MOSA", "MIO", "WHOLE_SUITE", "RANDOM"]
 
 
 def strategy(ctx):
-    from vf.corpus import MODULES
+    from vf.corpus import EXTRA_MODULES, MODULES
 
     return st.fixed_dictionaries({
-        "module": st.sampled_from(MODULES),
+        # vfc_records is left out: its frozen dataclass exposes __hash__(), whose value over str fields depends on
+        # PYTHONHASHSEED by design of CPython, i.e. that module is not deterministic across hash seeds.
+        "module": st.sampled_from([m for m in MODULES if m != "vfc_records"] + EXTRA_MODULES + EXTRA_MODULES),
+        "in_package": st.booleans(),
         "seed": st.integers(0, 10**6),
         "strip_annotations": st.booleans(),
         "algo": st.sampled_from(ALGOS),
         "iterations": st.integers(2, 12),
         "assertion": st.sampled_from(["SIMPLE", "MUTATION_ANALYSIS", "NONE"]),
         "hashseed": st.integers(1, 10000),
+        "no_xfail": st.booleans(),
     })
 
 
 def evaluate(case: dict[str, Any]) -> Outcome:
     from vf import cli
-    from vf.corpus import materialise_variant
+    from vf.corpus import materialise_package, materialise_variant
 
     out = Outcome()
     base = tempfile.mkdtemp(prefix="vf_c16_", dir=os.environ.get("VF_SCRATCH_DIR") or os.environ.get("VERIF_SCRATCH") or None)
     try:
         proj = os.path.join(base, "proj")
-        materialise_variant(case["module"], proj, case.get("strip_annotations", False))
+        if case.get("in_package"):
+            module = materialise_package(case["module"], proj, strip_annotations=case.get("strip_annotations", False))
+        else:
+            module = materialise_variant(case["module"], proj, case.get("strip_annotations", False))
         runs = []
         for i, hs in enumerate((0, case["hashseed"])):
-            runs.append(cli.run_pynguin(proj, case["module"], os.path.join(base, f"out{i}"), seed=case["seed"], algorithm=case["algo"],
-                                        iterations=case["iterations"], assertion_generation=case["assertion"], hashseed=hs))
+            runs.append(cli.run_pynguin(proj, module, os.path.join(base, f"out{i}"), seed=case["seed"], algorithm=case["algo"],
+                                        iterations=case["iterations"], assertion_generation=case["assertion"], hashseed=hs,
+                                        extra=["--no-xfail", str(case.get("no_xfail", False))]))
         out.labels += [f"algo:{case['algo']}", f"assert:{case['assertion']}", f"annotations:{'stripped' if case.get('strip_annotations') else 'kept'}"]
         if any(r.timed_out for r in runs):
             out.inconclusive = "pynguin run exceeded 600 s"
             return out
-        if any(cli.log_has_timeouts(r.log) for r in runs):
-            out.inconclusive = "test-execution timeout in a run (time-dependent)"
-            return out
         files = [open(r.test_file).read() if r.test_file else None for r in runs]
+        if files[0] != files[1] and any(cli.log_has_timeouts(r.log) for r in runs):
+            # a difference next to a wall-clock timeout in one of the runs says nothing about hash seeds
+            out.inconclusive = "outputs differ but a run had a test-execution/mutant timeout (time-dependent)"
+            return out
         if files[0] is None and files[1] is None:
             out.labels.append("no-test-file")
             return out
@@ -90,8 +99,26 @@ def evaluate(case: dict[str, Any]) -> Outcome:
     return out
 
 
+#: saved inputs that are always replayed (one per shard 0..n-1): shapes that a drawn campaign of 16 cases reaches rarely
+ANCHORS = [
+    {"module": "vfx_ledger", "in_package": False, "strip_annotations": False, "seed": 99, "algo": "DYNAMOSA", "iterations": 12,
+     "assertion": "SIMPLE", "hashseed": 4, "no_xfail": True},
+    {"module": "vfc_strings", "in_package": True, "strip_annotations": False, "seed": 1234, "algo": "DYNAMOSA", "iterations": 10,
+     "assertion": "SIMPLE", "hashseed": 2, "no_xfail": False},
+    {"module": "vfx_shapes", "in_package": False, "strip_annotations": True, "seed": 7, "algo": "MOSA", "iterations": 8,
+     "assertion": "NONE", "hashseed": 3, "no_xfail": False},
+    {"module": "vfx_tags", "in_package": False, "strip_annotations": False, "seed": 11, "algo": "WHOLE_SUITE", "iterations": 8,
+     "assertion": "SIMPLE", "hashseed": 5, "no_xfail": False},
+]
+
+
 def shard(ctx) -> None:
-    from vf.hyp import run_cases
+    from vf.hyp import guarded, run_cases
 
     os.environ["VF_SCRATCH_DIR"] = ctx.scratch
+    if ctx.shard < len(ANCHORS):
+        anchor = dict(ANCHORS[ctx.shard])
+        res = guarded(evaluate)(anchor)
+        res.labels.append("anchor-case")
+        ctx.record(anchor, res)
     run_cases(ctx, strategy(ctx), evaluate, max(1, ctx.params["examples"] // ctx.nshards), shrink=False)
